@@ -51,6 +51,7 @@ var (
 	flagScale  = flag.Int("scale", 0, "override generator scale")
 	flagDump   = flag.String("dump", "", "write generated op lines to this file and exit")
 	flagNoA    = flag.Bool("noa", false, "ignore the algorithm model (specification only)")
+	flagCorpus = flag.String("corpus", "", "directory of *.ops files (minimised past disagreements) that run first")
 )
 
 func infra(format string, a ...any) {
@@ -153,6 +154,19 @@ func main() {
 		ops = readOps(*flagOps)
 	} else {
 		ops = plan(*flagProp, *flagSeed, scale)
+		if *flagCorpus != "" && *flagProp != "tables" {
+			files, _ := filepath.Glob(filepath.Join(*flagCorpus, "*.ops"))
+			sort.Strings(files)
+			var pre []op
+			for _, f := range files {
+				for _, o := range readOps(f) {
+					o.Fam = "corpus"
+					o.Group = -1 - len(pre)
+					pre = append(pre, o)
+				}
+			}
+			ops = append(pre, ops...)
+		}
 	}
 	if len(ops) == 0 {
 		infra("no ops generated for %s", *flagProp)
@@ -340,21 +354,21 @@ func report(viols []violation, ops []op, results []res, start time.Time, scale i
 		samples = append(samples, map[string]string{"op": ops[i].Line(), "I": results[i].I, "A": results[i].A, "S": results[i].S, "family": ops[i].Fam})
 	}
 	cov := map[string]any{
-		"evaluations":          len(ops),
-		"distinct_ops":         len(distinct),
-		"distinct_nontrivial":  len(nontriv),
-		"rule":                 "ops generated by the families listed under 'families' from one PRNG (seed); distinct = distinct op lines; non-trivial = distinct op lines with a non-empty first argument whose real result is not the default (-1 / 0 / empty)",
-		"samples":              samples,
-		"families":             famCount,
-		"functions":            fnCount,
-		"result_kinds":         kinds,
-		"arg1_length_hist":     lenHist,
+		"evaluations":              len(ops),
+		"distinct_ops":             len(distinct),
+		"distinct_nontrivial":      len(nontriv),
+		"rule":                     "ops generated by the families listed under 'families' from one PRNG (seed); distinct = distinct op lines; non-trivial = distinct op lines with a non-empty first argument whose real result is not the default (-1 / 0 / empty)",
+		"samples":                  samples,
+		"families":                 famCount,
+		"functions":                fnCount,
+		"result_kinds":             kinds,
+		"arg1_length_hist":         lenHist,
 		"ops_with_algorithm_model": withA,
 		"ops_with_specification":   withS,
-		"scale":                scale,
-		"config":               impl.CfgSuffix(),
-		"goarch":               runtime.GOARCH,
-		"violations":           len(viols),
+		"scale":                    scale,
+		"config":                   impl.CfgSuffix(),
+		"goarch":                   runtime.GOARCH,
+		"violations":               len(viols),
 	}
 	if len(viols) > 0 {
 		n := len(viols)
